@@ -37,6 +37,10 @@ def run(ctx):
         scen.append({"id": "seeds%d" % (i // chunk), "kind": "seeds", "seeds": seeds[i:i + chunk], "bounds": BOUNDS,
                      "nsamp": 2000 if quick else 10000})
     scen.append({"id": "drbg", "kind": "drbg", "seeds": seeds[:40 if quick else 400], "k": 1000})
+    # Sample() overlapping Reset() (the client's writer samples while its reader processes the server's seed): pairs of seeds
+    # incl. single valued tables on either side
+    sr = seeds[:8 if quick else 60] + ["2900" + "00" * 22, seeds[0], seeds[1], "2900" + "00" * 22]
+    scen.append({"id": "samplereset", "kind": "samplereset", "seeds": sr, "bounds": [[0, 1448], [21, 1448], [0, 100], [0, 2]], "k": 40 if quick else 300})
     calls = []
     for a in [0, 1, 2, 5, 77, -3, 8128]:
         for b in [a - 1, a, a + 1, a + 2, a + 100, a + 8051]:
@@ -53,7 +57,7 @@ def run(ctx):
         raise Inconclusive("%d scenarios, %d traces" % (len(scen), len(traces)))
     nev = sum(len(t["events"]) for t in traces)
     for t in traces:
-        if t["id"] in ("vose", "seeds0", "drbg", "range", "range-scripted"):
+        if t["id"] in ("vose", "seeds0", "drbg", "range", "range-scripted", "samplereset"):
             ctx.sample({"scenario_id": t["id"], "events": t["events"][:2]})
     rejected = ctx.validate("DistTrace", "DistTrace.cfg", traces, label="trace validation", timeout=1800, max_rejects=6)
     ctx.log("%d scenarios, %d events, %d rejected" % (len(traces), nev, len(rejected)))
